@@ -67,6 +67,22 @@ func init() {
 	}
 	models["fmt.Sprintf"] = absStr
 	models["fmt.Sprint"] = absStr
+	for _, n := range []string{"strings.HasPrefix", "strings.HasSuffix", "bytes.HasPrefix", "bytes.HasSuffix"} {
+		isBytes := strings.HasPrefix(n, "bytes.")
+		models[n] = func(f *frame, t *ssa.Call, args []Val) {
+			x := f.x
+			r := x.S.Declare("hasaffix", SBool)
+			var ls, lp Term
+			if isBytes {
+				ls, lp = args[0].T[2], args[1].T[2]
+			} else {
+				ls, lp = x.strLen(args[0].One()), x.strLen(args[1].One())
+			}
+			// law: a string that has the prefix/suffix is at least as long as it
+			f.assume(Implies(r, BVCmp("bvuge", ls, lp)))
+			f.vals[t] = Val{T: []Term{r}, Typ: t.Type()}
+		}
+	}
 	models["bytes.Equal"] = func(f *frame, t *ssa.Call, args []Val) {
 		f.set(t, scalar(f.x.bytesEqual(f, args[0], args[1]), t.Type()))
 	}
